@@ -6,7 +6,7 @@ E3PLAIN    := -std=c++17 -O2 -g -Wall $(INC) -I. -MMD -MP
 E3SRC      := monitoring/OnlineAverage.cpp monitoring/OnlineVariance.cpp monitoring/RateMonitoring.cpp \
               diagnostics/CheckupRate.cpp diagnostics/CheckupReliability.cpp diagnostics/Diagnostic.cpp \
               diagnostics/DiagnosticReport.cpp diagnostics/DiagnosticStatus.cpp
-E3WRAP     := pthread_mutex_lock pthread_mutex_unlock pthread_mutex_trylock \
+E3WRAP     := pthread_mutex_lock pthread_mutex_unlock pthread_mutex_trylock pthread_mutex_timedlock pthread_mutex_clocklock \
               pthread_rwlock_rdlock pthread_rwlock_wrlock pthread_rwlock_tryrdlock pthread_rwlock_trywrlock pthread_rwlock_unlock \
               pthread_spin_lock pthread_spin_unlock pthread_once \
               __cxa_guard_acquire __cxa_guard_release __cxa_guard_abort \
